@@ -5,6 +5,9 @@ def run(ctx):
     # a broken obligation without a canary: the escalated search is bounded (the first run already renders every
     # page in its variants with the wrapper family and the stored canaries)
     os.environ.setdefault("VERIF_ESCALATION_S", "240")
+    # an escalated run (thorough volume under a wall-clock limit) bounds its generator so that it ends with a verdict:
+    # the focus stage and the dictionary probes first, route loops stop starting new routes after the budget
+    henv = {"VERIF_C18_BUDGET_S": os.environ.get("VERIF_C18_BUDGET_S", "120")} if os.environ.get("VERIF_ESCALATED") else None
     return standard(ctx,
         props=[("Props.C18", ["c18_escape_safe", "c18_hidden_input", "c18_old_input_refuted", "c18_escaped_fields_inert", "c18_document_no_raw", "c18_page_fields_inert", "c18_typed_failure_refuted", "c18_raw_field_refuted", "c18_field_contexts_safe", "c18_quoted_value", "c18_unquoted_value",
                                  "c18_hand_attr_quoted_inert", "c18_hand_attr_unquoted_blankfree", "c18_hand_attr_unquoted_refuted",
@@ -15,6 +18,7 @@ def run(ctx):
                              ("c18_failure_mismatches", "writeFailureResponse = failure_response of the model: declared type, body bytes, rendered-as-document verdict", "CasesC18f.idx"),
                              ("c18_escaper_mismatches", "html/template's rendering of a field in text / quoted-attribute / unquoted-attribute context = render_field of the model", "CasesC18e.idx"),
                              ("c18_attr_mismatches", "the raw attribute value an HTML tokenizer reads (attr_read of the model) is the whole rendered field: hidden INPUT, second-factor pages with nested canaries, html/template quoted / unquoted renderings", "CasesC18a.idx")], "CasesC18.idx"),
+        env=henv,
         violating=[("c18_violating", "request-text-ends-attribute-value", "CasesC18a.idx")],
         trusted=["html/template: that it recognises the context of a field as tools/extract/c18_contexts.go does (the escapers of the text, quoted and unquoted attribute contexts themselves are modelled and compared byte for byte); its URL filter/normaliser and the script/style/CSS escapers (no field of the current templates needs them)",
                  "golang.org/x/net/html tokenizer as the HTML5 parser of the oracle",
